@@ -259,6 +259,14 @@ def handleSimilarity (cmd : String) (rest : List String) : Option String :=
         s!"{showRat (individualSimilarity x y o)} {b2s (t || rest.any rawDateTies)}"
       | _, _, _ => "bad-op"
     | _ => some "bad-op"
+  | "weightedf" =>
+    -- WeightedSimilarity on the binary64 model: four components and four weights as exact
+    -- float64 values `mant frac`
+    match parseNats rest with
+    | some [a1, a2, b1, b2, c1, c2, d1, d2, e1, e2, f1, f2, g1, g2, h1, h2] =>
+      let v := F64.normalize (F64.weightedF ⟨a1, a2⟩ ⟨b1, b2⟩ ⟨c1, c2⟩ ⟨d1, d2⟩ ⟨e1, e2⟩ ⟨f1, f2⟩ ⟨g1, g2⟩ ⟨h1, h2⟩)
+      some s!"{v.mant} {v.frac}"
+    | _ => some "bad-op"
   | "sim-indif" =>
     -- (*IndividualNode).Similarity on the binary64 model, the estimated dates selected with the
     -- float64 comparison; `skip` outside the domain of Years() or of the options
